@@ -54,8 +54,8 @@ var treeVariants = []string{"AddRawChanges", "AddRawChanges+iterate", "ValidateR
 var treeSyncVariants = []string{"HandleHeadUpdate", "HandleStreamRequest", "HandleResponse", "NewTreeResponse"}
 
 func init() {
-	register(&target{Name: "tree", Variants: treeVariants, Fixes: 2, Build: func(fix uint64) (fixture, error) { return newTreeFixture(fix, false) }})
-	register(&target{Name: "treesync", Variants: treeSyncVariants, Fixes: 2, Build: func(fix uint64) (fixture, error) { return newTreeFixture(fix, true) }})
+	register(&target{Name: "tree", Variants: treeVariants, Fixes: 2, Heavy: true, Build: func(fix uint64) (fixture, error) { return newTreeFixture(fix, false) }})
+	register(&target{Name: "treesync", Variants: treeSyncVariants, Fixes: 2, Heavy: true, Build: func(fix uint64) (fixture, error) { return newTreeFixture(fix, true) }})
 }
 
 // ---- template ---------------------------------------------------------------------------
@@ -962,7 +962,7 @@ func (f *treeFixture) Mutate(in In, base seed) ([]byte, bool) {
 		tc.ReadKeyId = []string{"no-such-key", t.aclRoot + "x", fakeCid(1)}[mutate.Mod(in.A, 3)]
 		return single()
 	case "huge-prev":
-		n := []int{300, 3000, 20000}[mutate.Mod(in.A, 3)]
+		n := []int{300, 300, 3000, 300, 3000, 20000}[mutate.Mod(in.A, 6)]
 		for i := 0; i < n; i++ {
 			if in.C&1 == 1 {
 				tc.TreeHeadIds = append(tc.TreeHeadIds, t.heads[0])
